@@ -30,40 +30,40 @@ import (
 	"github.com/AdguardTeam/urlfilter/rules"
 )
 
-func init() { gens["c19fault"] = genC19Fault }
+func init() { gens["c19fault"] = c19GenFault }
 
-// gfOracle is the set of network rules of the world that truly match req.
-func (t *gfTruth) oracleNet(req *rules.Request) map[string]bool {
+// fOracle is the set of network rules of the world that truly match req.
+func (t *fTruth) oracleNet(req *rules.Request) map[string]bool {
 	m := map[string]bool{}
 	for _, idx := range t.order {
 		if nr, ok := t.rule[idx].(*rules.NetworkRule); ok && nr.Match(req) {
-			m[gfRuleKey(nr)] = true
+			m[fRuleKey(nr)] = true
 		}
 	}
 
 	return m
 }
 
-func (t *gfTruth) oracleHost(hostname string) map[string]bool {
+func (t *fTruth) oracleHost(hostname string) map[string]bool {
 	m := map[string]bool{}
 	for _, idx := range t.order {
 		if hr, ok := t.rule[idx].(*rules.HostRule); ok && hr.Match(hostname) {
-			m[gfRuleKey(hr)] = true
+			m[fRuleKey(hr)] = true
 		}
 	}
 
 	return m
 }
 
-func gfKeysOfNet(rs []*rules.NetworkRule) (ks []string) {
+func fKeysOfNet(rs []*rules.NetworkRule) (ks []string) {
 	for _, r := range rs {
-		ks = append(ks, gfNetKey(r))
+		ks = append(ks, fNetKey(r))
 	}
 
 	return ks
 }
 
-func gfSubset(what string, ks []string, sup map[string]bool) string {
+func fSubset(what string, ks []string, sup map[string]bool) string {
 	for _, k := range ks {
 		if k == "nil" {
 			return what + " contains a nil rule"
@@ -76,7 +76,7 @@ func gfSubset(what string, ks []string, sup map[string]bool) string {
 	return ""
 }
 
-func gfSetOf(ks []string) map[string]bool {
+func fSetOf(ks []string) map[string]bool {
 	m := map[string]bool{}
 	for _, k := range ks {
 		m[k] = true
@@ -85,9 +85,9 @@ func gfSetOf(ks []string) map[string]bool {
 	return m
 }
 
-// gfCheckDegraded checks one post-fault result object against the oracle and
+// fCheckDegraded checks one post-fault result object against the oracle and
 // the fault-free result object of the same query.
-func gfCheckDegraded(t *gfTruth, q *gfQuery, obj, free any) string {
+func fCheckDegraded(t *fTruth, q *fQuery, obj, free any) string {
 	first := func(ss ...string) string {
 		for _, s := range ss {
 			if s != "" {
@@ -102,7 +102,7 @@ func gfCheckDegraded(t *gfTruth, q *gfQuery, obj, free any) string {
 			return nil
 		}
 
-		return []string{gfNetKey(r)}
+		return []string{fNetKey(r)}
 	}
 	switch q.kind {
 	case "dns":
@@ -114,17 +114,17 @@ func gfCheckDegraded(t *gfTruth, q *gfQuery, obj, free any) string {
 		oh := t.oracleHost(q.dns.Hostname)
 		var hk []string
 		for _, h := range append(append([]*rules.HostRule{}, res.HostRulesV4...), res.HostRulesV6...) {
-			hk = append(hk, gfRuleKey(h))
+			hk = append(hk, fRuleKey(h))
 		}
-		all := gfKeysOfNet(res.NetworkRules)
+		all := fKeysOfNet(res.NetworkRules)
 
 		return first(
-			gfSubset("NetworkRules vs oracle", all, on),
-			gfSubset("NetworkRules vs fault-free", all, gfSetOf(gfKeysOfNet(fr.NetworkRules))),
-			gfSubset("NetworkRule", optional(res.NetworkRule), gfSetOf(all)),
-			gfSubset("HostRules vs oracle", hk, oh),
-			gfSubset("DNSRewrites", gfKeysOfNet(res.DNSRewrites()), gfSetOf(all)),
-			gfSubset("DNSRewritesAll", gfKeysOfNet(res.DNSRewritesAll()), gfSetOf(all)),
+			fSubset("NetworkRules vs oracle", all, on),
+			fSubset("NetworkRules vs fault-free", all, fSetOf(fKeysOfNet(fr.NetworkRules))),
+			fSubset("NetworkRule", optional(res.NetworkRule), fSetOf(all)),
+			fSubset("HostRules vs oracle", hk, oh),
+			fSubset("DNSRewrites", fKeysOfNet(res.DNSRewrites()), fSetOf(all)),
+			fSubset("DNSRewritesAll", fKeysOfNet(res.DNSRewritesAll()), fSetOf(all)),
 		)
 	case "web":
 		m := obj.(*rules.MatchingResult)
@@ -139,20 +139,20 @@ func gfCheckDegraded(t *gfTruth, q *gfQuery, obj, free any) string {
 		ks = append(ks, optional(m.DocumentRule)...)
 		ks = append(ks, optional(m.StealthRule)...)
 		ks = append(ks, optional(m.GetBasicResult())...)
-		ks = append(ks, gfKeysOfNet(m.CspRules)...)
-		ks = append(ks, gfKeysOfNet(m.CookieRules)...)
-		ks = append(ks, gfKeysOfNet(m.ReplaceRules)...)
+		ks = append(ks, fKeysOfNet(m.CspRules)...)
+		ks = append(ks, fKeysOfNet(m.CookieRules)...)
+		ks = append(ks, fKeysOfNet(m.ReplaceRules)...)
 
-		return gfSubset("MatchingResult vs oracle", ks, o)
+		return fSubset("MatchingResult vs oracle", ks, o)
 	case "all":
 		rs, fr := obj.([]*rules.NetworkRule), free.([]*rules.NetworkRule)
 
 		return first(
-			gfSubset("MatchAll vs oracle", gfKeysOfNet(rs), t.oracleNet(q.web)),
-			gfSubset("MatchAll vs fault-free", gfKeysOfNet(rs), gfSetOf(gfKeysOfNet(fr))),
+			fSubset("MatchAll vs oracle", fKeysOfNet(rs), t.oracleNet(q.web)),
+			fSubset("MatchAll vs fault-free", fKeysOfNet(rs), fSetOf(fKeysOfNet(fr))),
 		)
 	default:
-		if a, b := gfSerCosmetic(obj.(urlfilter.CosmeticResult)), gfSerCosmetic(free.(urlfilter.CosmeticResult)); a != b {
+		if a, b := fSerCosmetic(obj.(urlfilter.CosmeticResult)), fSerCosmetic(free.(urlfilter.CosmeticResult)); a != b {
 			return fmt.Sprintf("cosmetic result (held in memory) changed: %q vs fault-free %q", a, b)
 		}
 
@@ -160,8 +160,8 @@ func gfCheckDegraded(t *gfTruth, q *gfQuery, obj, free any) string {
 	}
 }
 
-// gfFault makes the File-backed lists unreadable.
-func gfFault(kind int, s *filterlist.RuleStorage, lists []filterlist.RuleList, w *gfWorld) {
+// fFault makes the File-backed lists unreadable.
+func fFault(kind int, s *filterlist.RuleStorage, lists []filterlist.RuleList, w *fWorld) {
 	if kind == 0 {
 		_ = s.Close()
 
@@ -181,20 +181,20 @@ func gfFault(kind int, s *filterlist.RuleStorage, lists []filterlist.RuleList, w
 	}
 }
 
-type gfScenarioResult struct {
+type fScenarioResult struct {
 	diff    string
-	entries []*gfEntry
+	entries []*fEntry
 	closeAt int
 }
 
-// gfScenario runs history qs with the fault before query k.
-func gfScenario(w *gfWorld, t *gfTruth, qs []*gfQuery, free []any, k, kind int) (res gfScenarioResult) {
+// fScenario runs history qs with the fault before query k.
+func fScenario(w *fWorld, t *fTruth, qs []*fQuery, free []any, k, kind int) (res fScenarioResult) {
 	lists := w.lists(nil, false)
 	s, err := filterlist.NewRuleStorage(lists)
 	if err != nil {
 		panic(err)
 	}
-	g := gfBuild(s)
+	g := fBuild(s)
 	defer func() { _ = s.Close() }()
 	note := func(f string, a ...any) {
 		if res.diff == "" {
@@ -206,7 +206,7 @@ func gfScenario(w *gfWorld, t *gfTruth, qs []*gfQuery, free []any, k, kind int) 
 	cached := map[int64]bool{} // indices in the cache (harness-side bookkeeping for the "still served" check)
 	for i, q := range qs {
 		if i == k {
-			gfFault(kind, s, lists, w)
+			fFault(kind, s, lists, w)
 			res.closeAt = len(res.entries)
 			for _, sp := range w.specs {
 				if sp.file {
@@ -224,7 +224,7 @@ func gfScenario(w *gfWorld, t *gfTruth, qs []*gfQuery, free []any, k, kind int) 
 			}()
 			_, obj = g.answer(q)
 			if i >= k {
-				if d := gfCheckDegraded(t, q, obj, free[i]); d != "" {
+				if d := fCheckDegraded(t, q, obj, free[i]); d != "" {
 					note("query %d %s (fault before %d): %s", i, q, k, d)
 				}
 			}
@@ -238,7 +238,7 @@ func gfScenario(w *gfWorld, t *gfTruth, qs []*gfQuery, free []any, k, kind int) 
 		for _, e := range es {
 			// rules retrieved before the fault are still returned when they match
 			if i >= k && e.obsAns != "_" {
-				have := gfSetOf(strings.Split(strings.Trim(e.obsAns, "[]"), "."))
+				have := fSetOf(strings.Split(strings.Trim(e.obsAns, "[]"), "."))
 				for _, idx := range e.cands {
 					rid := t.ridOf(t.rule[idx])
 					matches := false
@@ -247,7 +247,7 @@ func gfScenario(w *gfWorld, t *gfTruth, qs []*gfQuery, free []any, k, kind int) 
 					}
 					if cached[idx] && matches && !have[fmt.Sprint(rid)] {
 						note("query %d %s (fault before %d): rule %q was retrieved before the fault and matches but is not returned",
-							i, q, k, gfRuleKey(t.rule[idx]))
+							i, q, k, fRuleKey(t.rule[idx]))
 					}
 				}
 			}
@@ -261,17 +261,17 @@ func gfScenario(w *gfWorld, t *gfTruth, qs []*gfQuery, free []any, k, kind int) 
 		res.entries = append(res.entries, es...)
 	}
 	if k >= len(qs) {
-		gfFault(kind, s, lists, w)
+		fFault(kind, s, lists, w)
 	}
 
 	return res
 }
 
-func genC19Fault(r *rng, n int, w *bufio.Writer) {
-	gfSilenceLogs()
+func c19GenFault(r *rng, n int, w *bufio.Writer) {
+	fSilenceLogs()
 	kinds := []string{"close", "closed-descriptor"}
 	for done := 0; done < n; {
-		world := gfGenWorld(r, 24, 1+r.n(2))
+		world := fGenWorld(r, 24, 1+r.n(2))
 		hasFile := false
 		for _, sp := range world.specs {
 			hasFile = hasFile || sp.file
@@ -281,15 +281,15 @@ func genC19Fault(r *rng, n int, w *bufio.Writer) {
 		}
 		world.materialise()
 		t := world.truth()
-		pool := gfGenQueryPool(r, world, 5+r.n(8))
+		pool := fGenQueryPool(r, world, 5+r.n(8))
 		L := 8 + r.n(33)
-		qs := make([]*gfQuery, L)
+		qs := make([]*fQuery, L)
 		for i := range qs {
 			qs[i] = pick(r, pool)
 		}
 		// fault-free run (result objects kept for the subset checks)
 		fs := world.storage(nil, false)
-		fg := gfBuild(fs)
+		fg := fBuild(fs)
 		free := make([]any, L)
 		for i, q := range qs {
 			_, free[i] = fg.answer(q)
@@ -321,15 +321,15 @@ func genC19Fault(r *rng, n int, w *bufio.Writer) {
 		}
 		for _, k := range ks {
 			for kind := 0; kind < 2 && done < n; kind++ {
-				res := gfScenario(world, t, qs, free, k, kind)
+				res := fScenario(world, t, qs, free, k, kind)
 				ans := "T"
 				note := fmt.Sprintf("fault %s before query %d of %d; %s", kinds[kind], k, L, world.describe())
 				if res.diff != "" {
 					ans = "F"
 					note = "FIRST DIFFERENCE: " + res.diff + "; " + note
 				}
-				fmt.Fprintf(w, "assert c19fault %d %s %d %s = %s ## %s\n", k, kinds[kind], L, gfHash(world.describe()), ans, strings.ReplaceAll(note, "\n", "\\n"))
-				gfModelLine(w, "c19model", t, closed, res.closeAt, res.entries,
+				fmt.Fprintf(w, "assert c19fault %d %s %d %s = %s ## %s\n", k, kinds[kind], L, fHash(world.describe()), ans, strings.ReplaceAll(note, "\n", "\\n"))
+				fModelLine(w, "c19model", t, closed, res.closeAt, res.entries,
 					fmt.Sprintf("abstract trace: fault %s before query %d of %d (entry %d of %d)", kinds[kind], k, L, res.closeAt, len(res.entries)))
 				done++
 			}
